@@ -114,7 +114,9 @@ class ReceiverSpec(Spec):
 
     def __init__(self, cfg, tier):
         super().__init__(cfg, tier)
-        self.time_budget = 240 if tier == "quick" else 870        # wall clock on a shared machine; sized for <= 30 s CPU (quick)
+        # wall-clock caps, generous because the machine is shared; the configurations are sized for <= ~20 s (quick) and
+        # <= ~90 s (thorough) of CPU each and close well before the cap on an idle machine
+        self.time_budget = 900 if tier == "quick" else 3000
         self.max_states = 6_000_000
         self.device = cfg["dut"] == "device"
         self.gaps = cfg["gaps"]
